@@ -355,6 +355,7 @@ func runProperty(e *Eng, prop, tier, outDir, verifDir string, seed int64, start 
 		"go_version":          e.GoVer,
 		"tolerated_errors":    tolerated,
 		"known_findings":      nKnown,
+		"transparent_helpers": e.InlineLog,
 		"exhaustive":          false,
 	}
 	ev := map[string]any{
@@ -382,6 +383,11 @@ func runProperty(e *Eng, prop, tier, outDir, verifDir string, seed int64, start 
 				st = "FAIL"
 			}
 			fmt.Printf("  %-8s %-10s sites=%-3d ob=%-3d %s  %s\n", o.R.ID, o.R.Template, len(o.Sites), o.Checks, st, o.R.Desc)
+		}
+	}
+	if !quiet {
+		for _, l := range e.InlineLog {
+			fmt.Println("  transparent helper: " + l)
 		}
 	}
 	for _, l := range out {
